@@ -296,7 +296,7 @@ Theorem local_op_frame t o u t' res : WFt t -> local_target o = Some u -> step_t
                 n_parent r' = n_parent r /\ n_name r' = n_name r /\ n_link r' = n_link r).
 Proof.
   intros HW Ht Hs. destruct (local_step_shape t o u t' res Ht Hs) as [->|[r [r' [Eu [-> [Hu [Hp [Hn Hl]]]]]]]].
-  - repeat split; auto. intros r r' H1 H2. rewrite H1 in H2. inversion H2; subst. tauto.
+  - split; [auto|]. split; [auto|]. split; [auto|]. intros r0 r0' H1 H2. rewrite H1 in H2. inversion H2; subst. tauto.
   - split; [intros v Hv; apply find_replace_other; congruence|].
     split; [apply replace_uids|].
     split.
@@ -330,6 +330,12 @@ Proof.
     destruct (Z.eqb_spec p q); [congruence|]. apply app_nil_r.
 Qed.
 
+Lemma filter_comm {A} (f g : A -> bool) l : filter f (filter g l) = filter g (filter f l).
+Proof.
+  induction l as [|x r IH]; cbn [filter]; [reflexivity|].
+  destruct (g x) eqn:G, (f x) eqn:F; cbn [filter]; rewrite ?G, ?F, ?IH; reflexivity.
+Qed.
+
 (* DELETE: exactly the subtree disappears; every surviving node is untouched and every child list is the old
    one with the dead removed (relative order of the survivors preserved) *)
 Theorem delete_frame pol t p u t' : step_table pol t (ODelete p u) = (t', ROk) ->
@@ -348,9 +354,7 @@ Proof.
     + rewrite (find_node_uid _ _ _ Hf). destruct (existsb (Z.eqb v) dead) eqn:E; [apply Hex in E; contradiction|reflexivity].
     + intros x _ Hx. rewrite Hx. destruct (existsb (Z.eqb v) dead) eqn:E; [apply Hex in E; contradiction|reflexivity].
   - intros v Hv. apply find_filter_drop. intros x _ Hx. rewrite Hx. apply Hex in Hv. now rewrite Hv.
-  - intros q. unfold children. rewrite !filter_filter' || idtac.
-    induction t as [|x rest IH]; cbn [filter]; [reflexivity|].
-    destruct (negb (existsb (Z.eqb (n_uid x)) dead)) eqn:K, (n_parent x =? q) eqn:P; cbn [filter]; rewrite ?K, ?P; try rewrite IH; reflexivity.
+  - intros q. unfold children. apply filter_comm.
 Qed.
 
 (* RENAME (ADF policy): the node keeps its place in its parent's child list; only its name changes *)
@@ -386,8 +390,7 @@ Proof.
   match goal with |- context [if ?c then _ else _] => destruct c end; [|discriminate].
   destruct (find_child (children t np) (n_name r)); [discriminate|]. intros H. inversion H; subst t'. clear H.
   assert (Hfc : forall q, children (filter (fun x => negb (n_uid x =? u)) t) q = filter (fun x => negb (n_uid x =? u)) (children t q)).
-  { intros q. unfold children. clear. induction t as [|x rest IH]; cbn [filter]; [reflexivity|].
-    destruct (negb (n_uid x =? u)) eqn:K, (n_parent x =? q) eqn:P; cbn [filter]; rewrite ?K, ?P; try rewrite IH; reflexivity. }
+  { intros q. unfold children. apply filter_comm. }
   split.
   - intros v Hv. rewrite find_app. cbn [find_node n_uid]. destruct (Z.eqb_spec u v); [congruence|].
     destruct (find_node t v) as [rv|] eqn:Ev.
@@ -448,4 +451,181 @@ Proof.
   - intros r0 r0' H1 H2. inversion H1; subst r0. rewrite Hf' in H2. inversion H2; subst r0'. intros i Hi.
     cbn [n_data r' set_data]. apply splice_nth_outside; [nia|exact Hfit|].
     rewrite map_length. unfold lenZ in C1. fold sz in Hi. destruct Hi as [Hi|Hi]; [left; exact Hi|right; nia].
+Qed.
+
+(* ------------------------------------------------------------------------- *)
+(** * Several files: independence (C16) and reopen (C02) *)
+
+Lemma get_set_file_same w f t : get_file (set_file w f t) f = Some t.
+Proof.
+  induction w as [|[g t0] rest IH]; cbn [set_file get_file]; [now rewrite Z.eqb_refl|].
+  destruct (Z.eqb_spec g f) as [->|E]; cbn [get_file]; [now rewrite Z.eqb_refl|].
+  destruct (Z.eqb_spec g f); [contradiction|exact IH].
+Qed.
+
+Lemma get_set_file_other w f g t : f <> g -> get_file (set_file w f t) g = get_file w g.
+Proof.
+  intros Hfg. induction w as [|[h t0] rest IH]; cbn [set_file get_file].
+  - destruct (Z.eqb_spec f g); [contradiction|reflexivity].
+  - destruct (Z.eqb_spec h f) as [->|E]; cbn [get_file].
+    + destruct (Z.eqb_spec f g); [contradiction|reflexivity].
+    + destruct (Z.eqb_spec h g); [reflexivity|exact IH].
+Qed.
+
+Lemma get_set_mode_same m f x : get_mode (set_mode m f x) f = x.
+Proof.
+  induction m as [|[g y] rest IH]; cbn [set_mode get_mode]; [now rewrite Z.eqb_refl|].
+  destruct (Z.eqb_spec g f) as [->|E]; cbn [get_mode]; [now rewrite Z.eqb_refl|].
+  destruct (Z.eqb_spec g f); [contradiction|exact IH].
+Qed.
+
+Lemma get_set_mode_other m f g x : f <> g -> get_mode (set_mode m f x) g = get_mode m g.
+Proof.
+  intros Hfg. induction m as [|[h y] rest IH]; cbn [set_mode get_mode].
+  - destruct (Z.eqb_spec f g); [contradiction|reflexivity].
+  - destruct (Z.eqb_spec h f) as [->|E]; cbn [get_mode].
+    + destruct (Z.eqb_spec f g); [contradiction|reflexivity].
+    + destruct (Z.eqb_spec h g); [reflexivity|exact IH].
+Qed.
+
+(* what a session knows about file f *)
+Definition view (s : session) (f : Z) : option table * Z * Z :=
+  (get_file (s_world s) f, get_mode (s_modes s) f, get_mode (s_pol s) f).
+
+(* session-level events: operations, opens and closes *)
+Inductive event :=
+| EOp (o : op) | EOpen (create : bool) (mode pol : Z) | EClose.
+
+Definition sstep (s : session) (f : Z) (e : event) : session * result :=
+  match e with
+  | EOp o => step s f o
+  | EOpen c m p => open_file s f c m p
+  | EClose => close_file s f
+  end.
+
+(* an event on file f does not change what the session knows about another file g *)
+Lemma sstep_other s f e g : f <> g -> view (fst (sstep s f e)) g = view s g.
+Proof.
+  intros Hfg. unfold view. destruct e as [o|c m p|]; cbn [sstep].
+  - unfold step. destruct ((get_mode (s_modes s) f =? 0) || ((get_mode (s_modes s) f =? 1) && is_mutator o)); [reflexivity|].
+    destruct (get_file (s_world s) f) as [t|]; [|reflexivity].
+    destruct (step_table _ t o) as [t' r]. cbn [fst s_world s_modes s_pol]. now rewrite get_set_file_other.
+  - unfold open_file. destruct (negb (get_mode (s_modes s) f =? 0)); [reflexivity|].
+    destruct c; cbn [fst s_world s_modes s_pol].
+    + now rewrite get_set_file_other, !get_set_mode_other.
+    + destruct (get_file (s_world s) f); cbn [fst s_world s_modes s_pol]; [now rewrite get_set_mode_other|reflexivity].
+  - unfold close_file. destruct (get_mode (s_modes s) f =? 0); cbn [fst s_world s_modes s_pol]; [reflexivity|].
+    now rewrite get_set_mode_other.
+Qed.
+
+(* the answer to an event on f, and the new view of f, depend only on the view of f *)
+Lemma sstep_local s1 s2 f e : view s1 f = view s2 f ->
+  snd (sstep s1 f e) = snd (sstep s2 f e) /\ view (fst (sstep s1 f e)) f = view (fst (sstep s2 f e)) f.
+Proof.
+  unfold view. intros H. inversion H as [[Hf Hm Hp]]. destruct e as [o|c m p|]; cbn [sstep].
+  - unfold step. rewrite Hm, Hp.
+    destruct ((get_mode (s_modes s2) f =? 0) || ((get_mode (s_modes s2) f =? 1) && is_mutator o));
+      [cbn [fst snd]; split; [reflexivity|congruence]|].
+    rewrite Hf. destruct (get_file (s_world s2) f) as [t|] eqn:E; [|cbn [fst snd]; split; [reflexivity|congruence]].
+    destruct (step_table _ t o) as [t' r]. cbn [fst snd s_world s_modes s_pol].
+    rewrite !get_set_file_same, Hm, Hp. auto.
+  - unfold open_file. rewrite Hm. destruct (negb (get_mode (s_modes s2) f =? 0));
+      [cbn [fst snd]; split; [reflexivity|congruence]|].
+    destruct c; cbn [fst snd s_world s_modes s_pol].
+    + now rewrite !get_set_file_same, !get_set_mode_same.
+    + rewrite Hf. destruct (get_file (s_world s2) f) eqn:E; cbn [fst snd s_world s_modes s_pol].
+      * rewrite !get_set_mode_same, Hf, E, Hp. auto.
+      * split; [reflexivity|congruence].
+  - unfold close_file. rewrite Hm. destruct (get_mode (s_modes s2) f =? 0); cbn [fst snd s_world s_modes s_pol].
+    + split; [reflexivity|congruence].
+    + rewrite !get_set_mode_same, Hf, Hp. auto.
+Qed.
+
+(* run an interleaved history; keep the answers given to file f *)
+Fixpoint run_for (s : session) (evs : list (Z * event)) (f : Z) : list result :=
+  match evs with
+  | [] => []
+  | (g, e) :: rest =>
+      let '(s', r) := sstep s g e in
+      if g =? f then r :: run_for s' rest f else run_for s' rest f
+  end.
+
+Fixpoint final (s : session) (evs : list (Z * event)) : session :=
+  match evs with [] => s | (g, e) :: rest => final (fst (sstep s g e)) rest end.
+
+Definition only (f : Z) (evs : list (Z * event)) := filter (fun ge => fst ge =? f) evs.
+
+(* INDEPENDENCE: in any interleaving of events over any number of files, file f receives exactly the answers,
+   and ends with exactly the content, it would have if its own events had run alone *)
+Theorem interleaving_independent : forall evs s1 s2 f, view s1 f = view s2 f ->
+  run_for s1 evs f = run_for s2 (only f evs) f /\
+  view (final s1 evs) f = view (final s2 (only f evs)) f.
+Proof.
+  induction evs as [|[g e] rest IH]; intros s1 s2 f Hv; cbn [run_for final only filter fst]; [auto|].
+  destruct (Z.eqb_spec g f) as [->|Hgf].
+  - cbn [run_for final]. destruct (sstep_local s1 s2 f e Hv) as [Hr Hv'].
+    destruct (sstep s1 f e) as [s1' r1]. destruct (sstep s2 f e) as [s2' r2]. cbn [fst snd] in *.
+    rewrite Z.eqb_refl. subst r2. destruct (IH s1' s2' f Hv') as [H1 H2]. fold (only f rest). now rewrite H1.
+  - fold (only f rest). pose proof (sstep_other s1 g e f Hgf) as Ho.
+    destruct (sstep s1 g e) as [s1' r1]. cbn [fst] in *. apply IH. now rewrite Ho.
+Qed.
+
+(* REOPEN is the identity on content: closing and reopening a file (without truncating it) leaves its tree
+   exactly as it was, so every query afterwards answers as before *)
+Theorem reopen_identity s f mode s1 s2 :
+  close_file s f = (s1, ROk) -> open_file s1 f false mode 0 = (s2, ROk) ->
+  get_file (s_world s2) f = get_file (s_world s) f /\ get_mode (s_modes s2) f = mode /\
+  get_mode (s_pol s2) f = get_mode (s_pol s) f.
+Proof.
+  unfold close_file, open_file. destruct (get_mode (s_modes s) f =? 0); [discriminate|].
+  intros H1. inversion H1; subst s1. clear H1. cbn [s_modes s_world s_pol]. rewrite get_set_mode_same. cbn.
+  destruct (get_file (s_world s) f) eqn:E; [|discriminate]. intros H2. inversion H2; subst s2. cbn.
+  rewrite E. now rewrite get_set_mode_same.
+Qed.
+
+(* READ-ONLY (C07 at the level of the ideal tree): on a file opened read-only every mutator is refused and no
+   event other than an open changes its content *)
+Theorem read_only_unchanged s f o : get_mode (s_modes s) f = 1 ->
+  get_file (s_world (fst (step s f o))) f = get_file (s_world s) f /\
+  (is_mutator o = true -> snd (step s f o) = RErr).
+Proof.
+  intros Hm. unfold step. rewrite Hm.
+  change ((1 =? 0) || ((1 =? 1) && is_mutator o)) with (is_mutator o).
+  destruct (is_mutator o) eqn:M; cbn [fst snd]; [auto|].
+  destruct (get_file (s_world s) f) as [t|] eqn:E; cbn [fst snd]; [|now rewrite E].
+  pose proof (queries_pure (get_mode (s_pol s) f =? 1) t o M) as Hq.
+  destruct (step_table _ t o) as [t' r]. cbn [fst snd s_world] in *. subst t'. rewrite get_set_file_same.
+  split; [reflexivity|discriminate].
+Qed.
+
+(* ------------------------------------------------------------------------- *)
+(** * The only latitude TreeDB gives a back end: sibling order after a rename (C03) *)
+
+Theorem policy_only_in_rename t o : (forall p u nm, o <> ORename p u nm) ->
+  step_table true t o = step_table false t o.
+Proof. intros H. destruct o; try reflexivity. elim (H p u nm). reflexivity. Qed.
+
+Theorem rename_policies_same_nodes t p u nm : WFt t ->
+  snd (step_table true t (ORename p u nm)) = snd (step_table false t (ORename p u nm)) /\
+  forall v, find_node (fst (step_table true t (ORename p u nm))) v =
+            find_node (fst (step_table false t (ORename p u nm))) v.
+Proof.
+  intros HW. cbn [step_table]. unfold op_rename. destruct (find_node t u) as [r|] eqn:Eu; [|auto].
+  destruct ((n_parent r =? p) && negb (u =? root_uid) && name_ok nm); [|auto].
+  destruct (find_child (children t p) nm); [auto|]. cbn [fst snd]. split; [reflexivity|].
+  intros v. set (r' := mkN u p nm (n_label r) (n_dt r) (n_dims r) (n_data r) (n_link r)).
+  rewrite find_app. destruct (Z.eq_dec v u) as [->|Hv].
+  - rewrite find_filter_drop by (intros x _ Hx; rewrite Hx; now rewrite Z.eqb_refl).
+    cbn [find_node n_uid r']. rewrite Z.eqb_refl.
+    symmetry. apply (find_replace_same t r'). cbn [n_uid r']. rewrite Eu. discriminate.
+  - rewrite find_replace_other by (cbn; congruence).
+    destruct (find_node t v) as [rv|] eqn:Ev.
+    + rewrite (find_filter_keep t _ v rv Ev); [reflexivity| |].
+      * rewrite (find_node_uid _ _ _ Ev). destruct (Z.eqb_spec v u); [congruence|reflexivity].
+      * intros x _ Hx. rewrite Hx. destruct (Z.eqb_spec v u); [congruence|reflexivity].
+    + rewrite find_filter_drop.
+      * cbn [find_node n_uid r']. destruct (Z.eqb_spec u v); [congruence|reflexivity].
+      * intros x Hx Hxv. exfalso. clear - Ev Hx Hxv. induction t as [|y rest IH]; [destruct Hx|].
+        cbn [find_node] in Ev. destruct (Z.eqb_spec (n_uid y) v); [discriminate|].
+        destruct Hx as [->|Hx]; [contradiction|auto].
 Qed.
